@@ -3,12 +3,31 @@
 package mux
 
 import (
+	"sync"
 	"sync/atomic"
 
 	"github.com/cloudwego/netpoll"
 )
 
 //verif:stub runtime.Gosched verifGosched
+//verif:stub (*sync.Mutex).Lock verifListLock
+//verif:stub (*sync.Mutex).Unlock verifListUnlock
+
+// listLock is only taken by adders (inside triggering), never by the worker, and the harnesses
+// are sequential: the mutex itself is a no-op here. Its Lock call is the one point inside Add
+// where the adder calls out of the queue code: a worker task started by an earlier Add may run
+// to completion right there (harness C17_inject), i.e. between whatever Add does before and
+// after taking the lock.
+var verifLockInject bool
+
+func verifListLock(m *sync.Mutex) {
+	if verifLockInject && verifNondetBool("worker.runs.at.listlock") {
+		for verifRunPending() {
+		}
+	}
+}
+
+func verifListUnlock(m *sync.Mutex) {}
 
 func verifGosched() {
 	if verifYieldMode == 1 {
@@ -89,7 +108,7 @@ func verifHarness_C17_script(size int) {
 // from "another goroutine" may be injected (chosen by the solver). All tasks then run to the
 // end. Same oracle as the script harness.
 //
-//verif:bounds shards 1..3; 1-2 initial Adds + <= 3 Adds injected at the worker's call-outs (7 kinds of point); <= 4 getters; no Close
+//verif:bounds shards 1..3; 1-2 initial Adds (the worker started by the first may run while the second is at its listLock call) + <= 3 Adds injected at the worker's call-outs (7 kinds of point); <= 4 getters; no Close
 //verif:param 1 3
 //verif:loop 40
 //verif:replay interp
@@ -98,12 +117,14 @@ func verifHarness_C17_inject(size int) {
 	q, m := verifQueue(size)
 	var buf netpoll.Writer = &verifWriter{m: m}
 	in := &verifInjector{q: q, m: m, buf: buf}
+	verifLockInject = true
 	q.Add(verifGetter(m, 0, buf))
 	in.added = 1
 	if verifNondetBool("second.add") {
 		q.Add(verifGetter(m, 1, buf))
 		in.added = 2
 	}
+	verifLockInject = false
 	in.budget = 3
 	verifInj = in
 	for verifRunPending() {
